@@ -71,6 +71,52 @@ fn gen_sentinel_doc(rng: &mut Rng, d: usize) -> DocSpec {
     doc
 }
 
+/// a Markdown document in which a test case kills its own shell (first or middle position,
+/// ordinary test cases after it); no skip code, or one that nobody exits with
+fn gen_killed_doc(rng: &mut Rng, d: usize) -> DocSpec {
+    let n = 2 + rng.below(4);
+    let at = if n > 2 && rng.bool() { 1 + rng.below(n - 2) } else { 0 };
+    let code: Option<i32> = match rng.below(3) {
+        0 => None,
+        1 => Some(*rng.pick(&CODES)),
+        _ => Some(*rng.pick(&SENTINELS)),
+    };
+    let inline = code.is_some() && rng.chance(1, 3);
+    let effective = code.unwrap_or(DEFAULT_SKIP_CODE);
+    let mut tests = vec![];
+    for j in 0..n {
+        let mut t = TestSpec::pass(&format!("d{d}t{j}"));
+        if j == at {
+            t.kill_self = *rng.pick(&[9, 9, 15, 11]);
+            t.output_ok = rng.bool();
+            if rng.chance(1, 3) {
+                // even a test case that "expects" the status a shell would report for the signal
+                t.expect_code = Some(128 + t.kill_self as i32);
+            }
+        } else {
+            match rng.weighted(&[4, 2, 3]) {
+                0 => {}
+                1 => t.output_ok = false,
+                _ => {
+                    let pool: Vec<i32> = [1, 3, 137, 255, DEFAULT_SKIP_CODE].iter().copied().filter(|c| *c != effective).collect();
+                    t.exit = *rng.pick(&pool);
+                    t.expect_code = if rng.bool() { Some(t.exit) } else { None };
+                    t.hard_exit = rng.bool();
+                }
+            }
+        }
+        if inline {
+            t.skip_code = code;
+        }
+        tests.push(t);
+    }
+    let mut doc = DocSpec::new(&format!("d{d}.md"), Format::Markdown, tests);
+    if !inline {
+        doc.skip_code = code;
+    }
+    doc
+}
+
 /// one script-mode document whose compiled script is far larger than a pipe buffer and whose
 /// first test case leaves the shell with the skip code (or returns it from a sub-shell)
 fn gen_large_run(variant: u64) -> RunSpec {
@@ -245,7 +291,12 @@ fn gen_run(rng: &mut Rng) -> RunSpec {
     let docs: Vec<DocSpec> = (0..n_docs)
         .map(|d| {
             let fmt = if rng.chance(2, 3) { Format::Markdown } else { Format::Cram };
-            let mut doc = if !cram_compat && fmt == Format::Markdown && rng.chance(1, 6) { gen_sentinel_doc(rng, d) } else { gen_doc(rng, d, fmt) };
+            let special = if !cram_compat && fmt == Format::Markdown { rng.below(12) } else { 99 };
+            let mut doc = match special {
+                0 | 1 => gen_sentinel_doc(rng, d),
+                2 => gen_killed_doc(rng, d),
+                _ => gen_doc(rng, d, fmt),
+            };
             if cram_compat && fmt == Format::Markdown {
                 scriptify(rng, &mut doc);
             }
@@ -317,7 +368,7 @@ fn skip_findings(run: &RunSpec, docs: &[DocModel], results: &[(String, String, S
                     ),
                 });
             }
-            DocEnd::Completed | DocEnd::TimedOut { .. } => {
+            DocEnd::Completed | DocEnd::TimedOut { .. } | DocEnd::Killed { .. } => {
                 let stop = match d.end {
                     // the timed-out test case itself does not "follow a timed-out one"
                     DocEnd::TimedOut { at, attributed: true, or_next: false } => at + 1,
@@ -333,7 +384,10 @@ fn skip_findings(run: &RunSpec, docs: &[DocModel], results: &[(String, String, S
                 let foreign = spec.tests.iter().any(|t| t.exit != 0 && all_codes.contains(&t.exit));
                 out.push(Finding {
                     clause: "skipped-without-skip-code".into(),
-                    cause: if sentinel {
+                    cause: if let DocEnd::Killed { at } = d.end {
+                        // a shell killed by a signal is neither a skip code nor a timeout
+                        format!("{fmt}/shell-killed-by-signal/{}", if wrongly.contains(&at) { "the-killed-test-case" } else if wrongly.iter().any(|i| *i > at) { "after-the-killed-test-case" } else { "before-the-killed-test-case" })
+                    } else if sentinel {
                         // nothing can exit with the configured code at all
                         format!("{fmt}/unreachable-skip-code/{}", if matches!(d.end, DocEnd::TimedOut { .. }) { "document-timed-out" } else if spec.tests.iter().any(|t| t.detached) { "detached-test-case" } else { "plain" })
                     } else {
@@ -358,7 +412,7 @@ impl Monitor for C15 {
     fn plan(&self, tier: Tier) -> Plan {
         let mut p = Plan::new(
             tier.pick(400, 6000),
-            "runs of 1-3 documents (Markdown/Cram); skip code default 80, per document (front-matter defaults) or per test case; skipping test case first/middle/last, by `exit N` or `(exit N)`; in script mode also `(exit <skip code>)` followed later by a hard `exit` with another code; documents with an unreachable skip code (-1, -100, -255, 256, -80) in which test cases time out (per-test and document limit), detach, exit 80/255; two script-mode documents per quick run whose script is far larger than a pipe buffer and whose first test case exits with the skip code; a quarter of the runs under --cram-compat (Markdown documents executed as one script with one skip code); neighbours that pass, fail, expect [80] / the skip code, exit with somebody else's code, time out; non-trivial = a document the model says is skipped, or a document where a test case exits with a code that is a skip code elsewhere (80, the document's, a neighbour's) without skipping; distinct = hash of (format, end, position, classes per test case) over the run",
+            "runs of 1-3 documents (Markdown/Cram); skip code default 80, per document (front-matter defaults) or per test case; skipping test case first/middle/last, by `exit N` or `(exit N)`; in script mode also `(exit <skip code>)` followed later by a hard `exit` with another code; documents in which a test case kills its own shell (`kill -9/-15/-11 $$`, first or middle position, ordinary test cases after it): nothing may be reported skipped; documents with an unreachable skip code (-1, -100, -255, 256, -80) in which test cases time out (per-test and document limit), detach, exit 80/255; two script-mode documents per quick run whose script is far larger than a pipe buffer and whose first test case exits with the skip code; a quarter of the runs under --cram-compat (Markdown documents executed as one script with one skip code); neighbours that pass, fail, expect [80] / the skip code, exit with somebody else's code, time out; non-trivial = a document the model says is skipped, or a document where a test case exits with a code that is a skip code elsewhere (80, the document's, a neighbour's) without skipping; distinct = hash of (format, end, position, classes per test case) over the run",
         );
         p.chunk = tier.pick(2, 4);
         p.case_timeout_s = 120;
@@ -374,6 +428,7 @@ impl Monitor for C15 {
             ("skipper-ran".into(), tier.pick(70, 800)),
             ("script:skip-then-hard-exit".into(), tier.pick(3, 40)),
             ("large-script:skipper-leaves-the-shell".into(), tier.pick(1, 10)),
+            ("shell-killed:tests-after-it".into(), tier.pick(3, 45)),
             ("unreachable-skip-code:timed-out".into(), tier.pick(3, 50)),
             ("kind:skipped".into(), tier.pick(200, 2400)),
         ];
@@ -448,6 +503,12 @@ impl Monitor for C15 {
         // a skip the model predicts rests on the skipping test case having run
         let mut nontrivial = false;
         for (d, spec) in model.docs.iter().zip(case.run.docs.iter()) {
+            if let DocEnd::Killed { at } = d.end {
+                nontrivial = true;
+                buckets.push("shell-killed:tests-after-it".into());
+                buckets.push(format!("shell-killed:signal={}", spec.tests[at].kill_self));
+                buckets.push(format!("shell-killed:position={}", if at == 0 { "first" } else { "middle" }));
+            }
             if spec.filler > 0 {
                 nontrivial = true;
                 buckets.push(format!("large-script:{}", if spec.tests.iter().any(|t| t.hard_exit) { "skipper-leaves-the-shell" } else { "skipper-in-sub-shell" }));
